@@ -103,33 +103,41 @@ def ensure_coq(clean=False):
         return rc == 0, out
 
 
-def ensure_modelrun():
-    """Re-extract and rebuild the OCaml model runner when the Coq or ML sources changed."""
+def ensure_runner(name="modelrun", extract="Extract/Extract.v", drivers=("util.ml", "modelrun.ml"), mlmods=("model",)):
+    """Re-extract and rebuild an OCaml model runner when the Coq or ML sources changed.
+    extract: path (relative to coq/) of the extraction file, which writes <mlmod>.ml/.mli in its cwd;
+    drivers: files under ml/ compiled after the extracted modules, in order."""
     with BuildLock():
-        ml = BUILD / "ml"
+        ml = BUILD / ("ml_" + name)
         ml.mkdir(parents=True, exist_ok=True)
-        target = BUILD / "modelrun"
-        srcs = list(COQ.rglob("*.vo")) + list((VERIF / "ml").glob("*.ml")) + [COQ / "Extract" / "Extract.v"]
+        target = BUILD / name
+        exv = COQ / extract
+        srcs = list(COQ.rglob("*.vo")) + [VERIF / "ml" / d for d in drivers] + [exv]
         if target.exists() and all(s.stat().st_mtime <= target.stat().st_mtime for s in srcs if s.exists()):
             return True, "up to date"
-        rc, out = sh("coqc -Q %s '' -o %s/Extract.vo %s/Extract/Extract.v" % (COQ, ml, COQ), cwd=ml, timeout=900)
+        rc, out = sh("coqc -Q %s '' -o %s/Extract.vo %s" % (COQ, ml, exv), cwd=ml, timeout=1800)
         if rc != 0:
             return False, out
-        for f in (VERIF / "ml").glob("*.ml"):
-            shutil.copy(f, ml / f.name)
-        rc, out2 = sh("ocamlfind ocamlopt -O3 -w -a model.mli model.ml util.ml modelrun.ml -o ../modelrun.new && mv ../modelrun.new ../modelrun",
-                      cwd=ml, timeout=900)
+        for dname in drivers:
+            shutil.copy(VERIF / "ml" / dname, ml / dname)
+        files = " ".join("%s.mli %s.ml" % (m, m) for m in mlmods) + " " + " ".join(drivers)
+        rc, out2 = sh("ocamlfind ocamlopt -O3 -w -a %s -o ../%s.new && mv ../%s.new ../%s" % (files, name, name, name),
+                      cwd=ml, timeout=1800)
         return rc == 0, out + out2
 
 
-def ensure_harness(name="harness", tags="verif", cgo=True, race=False):
-    """Build the Go harness against /repo's current working tree."""
+def ensure_modelrun():
+    return ensure_runner()
+
+
+def ensure_harness(name="harness", tags="verif", cgo=True, race=False, srcdir="harness"):
+    """Build a Go harness module (under /verif/<srcdir>) against /repo's current working tree."""
     with BuildLock():
-        h = VERIF / "harness"
+        h = VERIF / srcdir
         shutil.copy(REPO / "go.sum", h / "go.sum")
         ex = {"CGO_ENABLED": "1" if cgo else "0"}
         cmd = "go build %s -tags %s -o %s ." % ("-race" if race else "", tags, BUILD / name)
-        rc, out = sh(cmd, cwd=h, timeout=1200, extra_env=ex)
+        rc, out = sh(cmd, cwd=h, timeout=1800, extra_env=ex)
         return rc == 0, out
 
 
